@@ -161,7 +161,7 @@ func subvec(args ...MalType) (MalType, error) {
 		return nil, fmt.Errorf("subvec index out of range (%d…%d of %d)", from, to, len(v.Val))
 	}
 	return Vector{
-		Val: v.Val[from:to],
+		Val: v.Val[from:to:to],
 	}, nil
 }
 
@@ -778,10 +778,12 @@ func concat(a ...MalType) (MalType, error) {
 	if len(a) == 0 {
 		return List{}, nil
 	}
-	slc1, e := GetSlice(a[0])
+	slc0, e := GetSlice(a[0])
 	if e != nil {
 		return nil, e
 	}
+	// copy: appending to the first argument's slice would write into its backing array
+	slc1 := append([]MalType{}, slc0...)
 	for i := 1; i < len(a); i += 1 {
 		slc2, e := GetSlice(a[i])
 		if e != nil {
@@ -920,7 +922,8 @@ func conj(a ...MalType) (MalType, error) {
 		}
 		return List{Val: append(new_slc, seq.Val...)}, nil
 	case Vector:
-		new_slc := append(seq.Val, a[1:]...)
+		// copy: appending to the vector's own slice would write into its backing array
+		new_slc := append(append([]MalType{}, seq.Val...), a[1:]...)
 		return Vector{Val: new_slc}, nil
 	case HashMap:
 		if len(a)%2 != 1 {
